@@ -33,7 +33,11 @@ pub fn eval_check(check: &str, case: &Case, replies: &[String]) -> Result<(), St
                     let mut it = kv.split(':');
                     let n = it.next().unwrap();
                     let k = it.next().unwrap();
-                    format!("{} PRINT {}\n", n, k)
+                    // ids from 9_000_000_000 stand for a body made of that many statement separators only
+                    match k.parse::<u64>() {
+                        Ok(v) if v >= 9_000_000_000 => format!("{} {}\n", n, vec![":"; (v - 9_000_000_000) as usize].join(" ")),
+                        _ => format!("{} PRINT {}\n", n, k),
+                    }
                 })
                 .collect();
             let want = prints(&expected);
@@ -56,7 +60,7 @@ pub fn eval_check(check: &str, case: &Case, replies: &[String]) -> Result<(), St
             }
             let expected: Vec<String> = spec
                 .split(',')
-                .filter(|x| !x.is_empty() && *x != "-")
+                .filter(|x| !x.is_empty() && *x != "-" && x.parse::<u64>().map(|v| v < 9_000_000_000).unwrap_or(true))
                 .map(|k| format!("P:{}", hex(&format!("{}\n", k))))
                 .collect();
             if got == expected {
@@ -92,6 +96,12 @@ fn field<'a>(fields: &'a [(String, String)], key: &str) -> &'a str {
 /// C16 oracle on one snapshot.
 pub fn snap_caps(snap: &str) -> Result<(), String> {
     let f = snapshot_fields(snap);
+    // snapshots are taken between host calls: every nested evaluation has returned, so the nesting counter is 0
+    // (model theorem C01.nesting_zero_of_reachable); a leak eats into the cap of 48 until nothing can be evaluated
+    let nesting = field(&f, "nesting");
+    if !nesting.is_empty() && nesting != "0" {
+        return Err(format!("the nesting counter is {} between host calls (leaked by an earlier call)", nesting));
+    }
     let stack = field(&f, "stack");
     let frames = stack.matches("[ret=").count();
     if frames > 32 {
